@@ -422,7 +422,9 @@ static void op_parse(toks *t)
     ARGN(4);
     variant = (int)tk_int(T(2)); rnt = (int)tk_int(T(4));
     b = tk_bytes(T(3), &n);
-    if (variant <= 1) buf = ga_make(&g, b, n + 1, GP_END, 1);   /* includes the terminating zero */
+    memset(&g, 0, sizeof g);
+    if (b == NULL) buf = NULL;                                    /* "~": NULL text */
+    else if (variant <= 1) buf = ga_make(&g, b, n + 1, GP_END, 1);   /* includes the terminating zero */
     else buf = ga_make(&g, b, n, GP_END, 1);
     switch (variant) {
     case 0: LIB_BEGIN("cJSON_Parse"); r = cJSON_Parse((char *)buf); LIB_END(); break;
@@ -594,7 +596,7 @@ static void op_chk_inner(toks *t) { op_chk(t, 0); }
 static void op_cfg(toks *t)
 {
     ARGN(1);
-    if (led.live_blocks != 0) cjv_fatal("cfg switch with live blocks");
+    if (led.live_blocks != 0) cjv_violation("leak/before-cfg-switch", "%ld blocks still allocated at a quiescent point", led.live_blocks);
     log_counters("C");
     led.requests = led.frees = led.free_null = 0;
     led.wrap_malloc = led.wrap_calloc = led.wrap_realloc = led.wrap_free = led.hook_malloc = led.hook_free = 0;
@@ -687,8 +689,25 @@ static void exec(char *line)
     run_toks(&t);
 }
 
-/* ---- main loop ---- */
+/* ---- main loop (runs on a 1 GiB thread stack: the driver's own walkers recurse as deep as the trees) ---- */
+static int real_main(int argc, char **argv);
+typedef struct { int argc; char **argv; int rc; } main_args;
+static void *main_tramp(void *p) { main_args *a = p; a->rc = real_main(a->argc, a->argv); return NULL; }
+#include <pthread.h>
 int main(int argc, char **argv)
+{
+    pthread_attr_t at;
+    pthread_t th;
+    main_args a;
+    a.argc = argc; a.argv = argv; a.rc = 2;
+    pthread_attr_init(&at);
+    pthread_attr_setstacksize(&at, (size_t)1 << 30);
+    if (pthread_create(&th, &at, main_tramp, &a) != 0) { perror("pthread_create"); return 2; }
+    pthread_join(th, NULL);
+    return a.rc;
+}
+
+static int real_main(int argc, char **argv)
 {
     char *line = NULL;
     size_t cap = 0;
